@@ -118,7 +118,7 @@ pub fn marker(ok: bool) -> CompletedMarker {
 
 /// judgement after the real rule function returned (recogniser mode): `accepted` = the
 /// documented right-hand side accepts the sequence of tokens / callee placeholders consumed
-pub fn unit_judge(p: &mut Parser, accepted: bool, viable: bool, progress: bool, entry_after_error: bool, la0: K, kf_region: bool) {
+pub fn unit_judge(p: &mut Parser, accepted: bool, viable: bool, progress: bool, entry_after_error: bool, la0: K, kf_region: u8) {
     let errs = unsafe { l1::G_ERRS };
     let nev = unsafe { l1::G_NEV };
     unsafe {
@@ -127,8 +127,11 @@ pub fn unit_judge(p: &mut Parser, accepted: bool, viable: bool, progress: bool, 
     assert!(l1::inv(p), "C01: the unit leaves the parser in a lossless state");
     assert!(nev <= l1::EVCAP, "event log large enough");
     if !entry_after_error {
-        if kf_region {
-            kani::cover!((errs == 0) != accepted, "I: known-finding region exercised");
+        if kf_region != 0 {
+            let mismatch = (errs == 0) != accepted;
+            kani::cover!(mismatch && kf_region == 1, "KF:C04_DAG_OPERATOR_RESTRICTED");
+            kani::cover!(mismatch && kf_region == 2, "KF:C04_COND_WITHOUT_CLAUSE");
+            kani::cover!(mismatch && kf_region == 3, "KF:C04_SLICE_ELEMENT_SECOND_VALUE");
         } else {
             if errs == 0 {
                 // a rule cut short by the end of input may stop silently on a viable prefix (the
@@ -149,14 +152,17 @@ pub fn unit_judge(p: &mut Parser, accepted: bool, viable: bool, progress: bool, 
 }
 
 /// judgement in generative mode: the stream is a sentence of the rule (all n tokens)
-pub fn gen_judge(p: &mut Parser, kf_region: bool) {
+pub fn gen_judge(p: &mut Parser, kf_region: u8) {
     let errs = unsafe { l1::G_ERRS };
     unsafe {
         assert!(l1::G_DEPTH == 0 && l1::G_MIN_DEPTH >= 0, "C02/C04: node events are balanced");
     }
     let all = l1::l2_consumed(p) == l1::l2_ntok(p);
-    if kf_region {
-        kani::cover!(errs > 0 || !all, "I: known-finding region exercised");
+    if kf_region != 0 {
+        let mismatch = errs > 0 || !all;
+        kani::cover!(mismatch && kf_region == 1, "KF:C04_DAG_OPERATOR_RESTRICTED");
+        kani::cover!(mismatch && kf_region == 2, "KF:C04_COND_WITHOUT_CLAUSE");
+        kani::cover!(mismatch && kf_region == 3, "KF:C04_SLICE_ELEMENT_SECOND_VALUE");
     } else {
         assert!(errs == 0, "C04: every sentence of the documented rule parses with zero syntax errors");
         assert!(all, "C04: the rule function consumes the whole sentence");
@@ -170,29 +176,31 @@ use crate::verif_kf as kf;
 
 /// documented `Dag ::= "(" DagArg DagArgList? ")"`, but the parser (like llvm-tblgen) only
 /// accepts an identifier, `?`, `!cast` or `!getdagop` as the first token of the operator
-pub fn kf_region_dag(p: &Parser) -> bool {
+pub fn kf_region_dag(p: &Parser) -> u8 {
     let k1 = l1::l2_kind_at(p, 1);
-    kf::C04_DAG_OPERATOR_RESTRICTED
+    let inside = kf::C04_DAG_OPERATOR_RESTRICTED
         && l1::l2_kind_at(p, 0) == K::LParen
         && (gen::first_DagArg)(k1)
-        && !matches!(k1, K::Id | K::XCast | K::Question | K::XGetDagOp)
+        && !matches!(k1, K::Id | K::XCast | K::Question | K::XGetDagOp);
+    if inside { 1 } else { 0 }
 }
 
 /// documented `CondOperator ::= CONDOP "(" CondClause ("," CondClause)* ")"`, but `!cond()` is accepted
-pub fn kf_region_cond_operator(p: &Parser) -> bool {
-    kf::C04_COND_WITHOUT_CLAUSE
+pub fn kf_region_cond_operator(p: &Parser) -> u8 {
+    let inside = kf::C04_COND_WITHOUT_CLAUSE
         && l1::l2_kind_at(p, 0) == K::XCond
         && l1::l2_kind_at(p, 1) == K::LParen
-        && l1::l2_kind_at(p, 2) == K::RParen
+        && l1::l2_kind_at(p, 2) == K::RParen;
+    if inside { 2 } else { 0 }
 }
 
 /// documented `SliceElement ::= Value | Value "..." Value | Value "-" Value | Value Integer`,
 /// but any Value is accepted as the second element (`x[1 "s"]` parses clean)
-pub fn kf_region_slice_element(p: &Parser) -> bool {
+pub fn kf_region_slice_element(p: &Parser) -> u8 {
     let k1 = l1::l2_kind_at(p, 1);
     // the second element is parsed through value(): whatever starts a value is accepted, and a
     // placeholder starting with an integer stands for any value (`1{2}`), not just an Integer
-    kf::C04_SLICE_ELEMENT_SECOND_VALUE && is_value_start(k1)
+    if kf::C04_SLICE_ELEMENT_SECOND_VALUE && is_value_start(k1) { 3 } else { 0 }
 }
 
 include!("rules_gen.rs");
